@@ -9,6 +9,8 @@ import (
 	"fmt"
 	"math/rand"
 	"strings"
+	"sync/atomic"
+	"time"
 
 	"github.com/icon-project/goloop/common/db"
 	"verif/harness/hxlib"
@@ -347,6 +349,128 @@ func run(h hist) (outs []string, msg string, st stats) {
 	return
 }
 
+// ------------------------------------------------------------------ concurrent stream
+// A writer goroutine performs Sets on a layered bucket while Flush(true) runs on another
+// goroutine (db.Writer flushes several Flushers into one layer concurrently, so this is normal
+// use).  The underlying bucket is gated: the first real Set of the commit parks until released,
+// which pins the commit inside its replay.  Oracle: every acknowledged Set is visible in the
+// view and in the underlying store once both goroutines have returned.  On a correct layer the
+// writer's Set lands either in the list before the commit (replayed) or after it (written
+// through), whatever the timing, so the stream cannot fail spuriously.
+
+type gate struct {
+	armed   int32
+	entered chan struct{}
+	release chan struct{}
+}
+
+type gateDB struct {
+	db.Database
+	g *gate
+}
+
+type gateBucket struct {
+	db.Bucket
+	g *gate
+}
+
+func (d *gateDB) GetBucket(id db.BucketID) (db.Bucket, error) {
+	b, err := d.Database.GetBucket(id)
+	if err != nil {
+		return nil, err
+	}
+	return &gateBucket{b, d.g}, nil
+}
+
+func (b *gateBucket) park() {
+	if atomic.CompareAndSwapInt32(&b.g.armed, 1, 0) {
+		close(b.g.entered)
+		<-b.g.release
+	}
+}
+func (b *gateBucket) Set(k, v []byte) error { b.park(); return b.Bucket.Set(k, v) }
+func (b *gateBucket) Delete(k []byte) error { b.park(); return b.Bucket.Delete(k) }
+
+type concIn struct {
+	Pre     int `json:"pre"`      // layered writes before the commit
+	Writes  int `json:"writes"`   // Sets of the racing writer
+	DelayMs int `json:"delay_ms"` // how long the commit stays parked after the writer started
+	Buckets int `json:"buckets"`  // the writer's bucket: 0 = the bucket with list entries, 1 = another layered bucket
+}
+
+func concOracle(in concIn) string {
+	g := &gate{entered: make(chan struct{}), release: make(chan struct{})}
+	mdb := db.NewMapDB()
+	ldb := db.NewLayerDB(&gateDB{mdb, g})
+	bkA, _ := ldb.GetBucket("A")
+	bkW := bkA
+	wid := db.BucketID("A")
+	if in.Buckets == 1 {
+		bkW, _ = ldb.GetBucket("B")
+		wid = "B"
+	}
+	for i := 0; i < in.Pre; i++ {
+		bkA.Set([]byte{'p', byte(i)}, []byte{1, byte(i)})
+	}
+	atomic.StoreInt32(&g.armed, 1)
+	fdone := make(chan error, 1)
+	go func() { fdone <- ldb.Flush(true) }()
+	select {
+	case <-g.entered:
+	case <-time.After(5 * time.Second):
+		return "Flush(true) never reached the underlying store"
+	}
+	started := make(chan struct{})
+	wdone := make(chan error, 1)
+	go func() {
+		close(started)
+		for i := 0; i < in.Writes; i++ {
+			if err := bkW.Set([]byte{'w', byte(i)}, []byte{2, byte(i)}); err != nil {
+				wdone <- err
+				return
+			}
+		}
+		wdone <- nil
+	}()
+	<-started
+	time.Sleep(time.Duration(in.DelayMs) * time.Millisecond)
+	close(g.release)
+	for _, ch := range []chan error{fdone, wdone} {
+		select {
+		case err := <-ch:
+			if err != nil {
+				return "operation failed: " + err.Error()
+			}
+		case <-time.After(10 * time.Second):
+			return "Flush(true) and a concurrent Set do not both return (deadlock)"
+		}
+	}
+	under, _ := mdb.GetBucket(wid)
+	for i := 0; i < in.Writes; i++ {
+		k, want := []byte{'w', byte(i)}, []byte{2, byte(i)}
+		if v, _ := bkW.Get(k); !bytes.Equal(v, want) {
+			return fmt.Sprintf("Set(%s,%x) was acknowledged while Flush(true) ran on another goroutine; afterwards the layered view holds %s", wid, k, show(v))
+		}
+		if v, _ := under.Get(k); !bytes.Equal(v, want) {
+			return fmt.Sprintf("Set(%s,%x) was acknowledged while Flush(true) ran on another goroutine; afterwards the underlying store holds %s", wid, k, show(v))
+		}
+	}
+	ua, _ := mdb.GetBucket("A")
+	for i := 0; i < in.Pre; i++ {
+		if v, _ := ua.Get([]byte{'p', byte(i)}); !bytes.Equal(v, []byte{1, byte(i)}) {
+			return fmt.Sprintf("layered write p%d is missing from the underlying store after Flush(true): %s", i, show(v))
+		}
+	}
+	return ""
+}
+
+func runConc(in concIn) (msg string) {
+	if p := hxlib.Catch(func() { msg = concOracle(in) }); p != "" {
+		msg = "panic: " + p
+	}
+	return
+}
+
 // ---- generator ----
 var bucketIDs = []string{"A", "B", "C"}
 var keyPool = [][]byte{{}, {1}, {1, 2}, {255}}
@@ -512,12 +636,29 @@ func gen(c *hxlib.Ctx) {
 		}
 		c.Emit(cs)
 	}
+	// concurrent stream (direct oracle only: the model is about histories, not schedules)
+	for i := 0; i < 8; i++ {
+		in := concIn{Pre: 1 + c.Rand.Intn(3), Writes: 1 + c.Rand.Intn(3), DelayMs: []int{5, 20, 40, 80}[i%4], Buckets: (i / 4) % 2}
+		c.Emit(hxlib.Case{Kind: "concurrent-set-vs-flush", Key: fmt.Sprint("conc", i), Input: map[string]interface{}{"conc": in},
+			OracleErr: runConc(in), Nontrivial: true})
+	}
 	// canary: a wrong observation (Get after Set reported as nil) that the model must flag
 	c.Emit(hxlib.Case{Kind: "canary", Canary: true,
 		Coq: "(CHist [[65]] [[1]] [cS 0 0 (Some [1]); cG 0 0 None])"})
 }
 
 func replay(raw json.RawMessage) string {
+	var cc struct {
+		Conc *concIn `json:"conc"`
+	}
+	if json.Unmarshal(raw, &cc) == nil && cc.Conc != nil {
+		for i := 0; i < 5; i++ { // a schedule, not an input: try a few times
+			if m := runConc(*cc.Conc); m != "" {
+				return m
+			}
+		}
+		return ""
+	}
 	var h hist
 	if err := json.Unmarshal(raw, &h); err != nil {
 		return "bad replay input: " + err.Error()
@@ -533,6 +674,7 @@ func main() {
 			"direct reads and writes of the underlying MapDB, Flush(true|false) at random points and always near the end, a complete read of the underlying store and of the layer after every flush, " +
 			"writes continue after the flush; bucket handles are cached or re-obtained at random. Direct oracle: a Go reference of two maps (base, overlay with tombstones) checked on every Get/Has, " +
 			"plus base-after-Flush(true) = view-before and base-after-Flush(false) = base-before read from the implementation. " +
+			"Plus 8 concurrent cases (no model side): a writer goroutine Sets on a layered bucket while Flush(true) is parked inside its replay by a gated underlying bucket; oracle: every acknowledged Set is in the view and in the underlying store afterwards. " +
 			"non-trivial = the history has a layered set, a layered delete of a key that was visible, and a flush of a non-empty layer; distinct = distinct Coq case term",
 		Shard: 80,
 		Gen:   gen, Replay: replay,
